@@ -607,10 +607,12 @@ REVIEWED = {
         "the stream offset buffer_offset.unwrap_or(0) + internal_buffer_position never decreases: try_recover only increments the position, "
         "and ensure_data_read (the only other writer reachable from it) replaces (offset, position) by (Some(offset + position), 0) "
         "(premises checked structurally by RECOVER-MONO-PREMISE)",
-    # (function, kind, desc-prefix) -> argument.  Premises are checked structurally in _reviewed_premises.
-    (ITER + "::buffer_master", "PRECOND", "unwrap on a value that may be None"):
-        "children = emission_queue.split_off(pre_queue_len) and split_to = position - pre_queue_len with position < emission_queue.len() "
-        "at both `break 'endTagSearch` sites (they lie inside `while position < self.emission_queue.len()`), so split_to < children.len()",
+    # (function, kind, desc-prefix) -> argument.  Premises are checked in _reviewed_premises (only when the argument is actually used).
+    (ITER + "::buffer_master::{closure#", "PRECOND", "unwrap on a value that may be Err"):
+        "the closure unwraps the queue items *before* the stopping index only; the search examines the items in increasing order and stops at "
+        "the first one that is an Err (or the matching End), and the roll-up is reached only when the stopping item is_ok(): so every item "
+        "before it is Ok.  A per-element fact about a summarised queue is outside the abstract domain; the premises (search stops at Err, "
+        "roll-up guarded by is_ok) are checked by REVIEWED-PREMISE",
 }
 
 
@@ -643,7 +645,8 @@ def _classify(res, allowed_spec, rep, prefix, fn_filter=None, kinds=None):
                 if A_SPEC not in rep.assumed:
                     rep.assumed.append(A_SPEC)
                 continue
-            if fn == "spec_util::validate_tag_path" and desc.startswith("Overflow(Add)(") and desc.split("(")[2].split(",")[0] in ("global_counter", "path_marker"):
+            if fn == "spec_util::validate_tag_path" and desc.startswith("Overflow(Add)(") and desc.rstrip(")").split(",")[-1].strip() in ("1", "2"):
+                # a counter stepped by 1 or 2 once per element of an in-memory sequence
                 rep.obligations += 1
                 rep.discharged += 1
                 if A_COUNT not in rep.assumed:
@@ -657,8 +660,9 @@ def _classify(res, allowed_spec, rep, prefix, fn_filter=None, kinds=None):
                 continue
             rv = None
             for (rfn, rkind, rdesc), arg in REVIEWED.items():
-                if fn == rfn and kind == rkind and desc.startswith(rdesc):
+                if (fn == rfn or (rfn.endswith("{closure#") and fn.startswith(rfn))) and kind == rkind and desc.startswith(rdesc):
                     rv = arg
+                    rep.reviewed_used = getattr(rep, "reviewed_used", set()) | {rfn}
             if rv is not None:
                 rep.obligations += 1
                 rep.discharged += 1
@@ -685,32 +689,77 @@ def _extra(res, rep, kind, prefix, floor):
 
 
 def _reviewed_premises(ctx, rep):
+    """premises of the reviewed argument for buffer_master's `c.unwrap()` over the buffered children"""
+    from rules.writer import local_sources
     prog = ctx.prog
     bm = find_one(prog, "TagIterator::buffer_master")
-    so = bm.calls_to("std::collections::VecDeque::split_off")
-    g = bm.calls_to("std::collections::VecDeque::get")
-    rep.oblige(len(so) >= 1 and len(g) >= 2, "REVIEWED-PREMISE|buffer_master|shape", bm.span,
-               "buffer_master no longer has the split_off/get shape the reviewed argument for its unwrap() relies on")
-    # every edge leaving the search loop towards the split is dominated by the `position < len` test: the block of the first split_off is
-    # reachable only through blocks dominated by a switch on Lt(position, len)
-    if so:
-        sbb = so[0][0]
-        dom = bm.dominators()
-        ok = False
-        for d in dom.get(sbb, ()):
-            for st in bm.blocks[d]["stmts"]:
-                if st["k"] == "assign" and st["rv"]["k"] == "binop" and st["rv"]["op"] in ("Lt", "Ge", "Gt", "Le"):
-                    names = set()
-                    for o in (st["rv"]["a"], st["rv"]["b"]):
-                        if o.get("k") in ("copy", "move"):
-                            l = o["place"]["local"]
-                            names.add(bm.local_name(l))
-                            for _b2, _i2, st2 in bm.statements():
-                                if st2["k"] == "assign" and st2["place"]["local"] == l and st2["rv"]["k"] == "use" and st2["rv"]["op"].get("k") in ("copy", "move"):
-                                    names.add(bm.local_name(st2["rv"]["op"]["place"]["local"]))
-                    if "position" in names:
-                        ok = True
-        rep.oblige(ok, "REVIEWED-PREMISE|buffer_master|guard", bm.span, "the split in buffer_master is not dominated by a comparison of `position` with the queue length")
+    # (A) the roll-up (the map over the children that unwraps them) is reached only when the stopping item is_ok()
+    maps = bm.calls_to("std::iter::Iterator::map")
+    isok = bm.calls_to("std::result::Result::is_ok")
+    okA = False
+    for mb, mt, mc in maps:
+        for ib, it_, ic in isok:
+            nxt = it_["target"]
+            tt = bm.blocks[nxt]["term"] if nxt is not None else None
+            if tt is not None and tt["k"] == "switch":
+                true_t = tt["otherwise"] if all(v == 0 for v, _ in tt["targets"]) else next((tg for v, tg in tt["targets"] if v == 1), None)
+                if true_t is not None and bm.edge_dominates((nxt, true_t), mb):
+                    okA = True
+    rep.instance("buffer_master: roll-up guarded by is_ok() on the stopping item: %s" % okA)
+    rep.oblige(okA, "REVIEWED-PREMISE|buffer_master|rollup-guard", bm.span, "the children are unwrapped on a path where the stopping item was not tested with is_ok()")
+    # (B) the search stops at the first Err
+    okB = None
+    # B1: an explicit loop: get(i) on the queue, switch on the item's Result discriminant, the Err arm leaves the loop
+    for gb, gt, gc in bm.calls_to("std::collections::VecDeque::get"):
+        if "field:emission_queue" not in local_sources(bm, gt["args"][0]["place"]["local"]):
+            continue
+        loop = {x for x in bm.reachable_from(gb) if gb in bm.reachable_from(x)}
+        if not loop:
+            continue
+        for x in sorted(loop):
+            tt = bm.blocks[x]["term"]
+            if tt["k"] != "switch":
+                continue
+            # a switch whose scrutinee is a discriminant read (of the item) and whose target for variant 1 (Err) is outside the loop
+            dis = [st for st in bm.blocks[x]["stmts"] if st["k"] == "assign" and st["rv"]["k"] == "discr"]
+            if not dis:
+                continue
+            for v, tg in tt["targets"]:
+                if v == 1 and tg not in loop:
+                    okB = "explicit loop: the Err arm of the item match leaves the search loop"
+    # B2: Iterator::position(pred) over the queue: the predicate answers true for every Err (abstract evaluation)
+    if okB is None:
+        import absrun
+        from absval import Closure, Enum, Ref, Top, Int
+        for pb, pt, pc in bm.calls_to("std::iter::Iterator::position"):
+            a1 = pt["args"][1]
+            clo_def = None
+            for b2, i2, st2 in bm.statements():
+                if st2["k"] == "assign" and a1.get("k") in ("copy", "move") and st2["place"]["local"] == a1["place"]["local"] and st2["rv"].get("agg") == "closure":
+                    clo_def = strip_generics(st2["rv"]["def"])
+            cb = prog.bodies.get(clo_def) if clo_def else None
+            if cb is None:
+                continue
+            eng = absrun.make_engine(prog)
+
+            def setup(e, st, fr, cb=cb):
+                # the item: &Result<..> known to be Err
+                ty = cb.locals[2]["ty"]
+                r = e.top_of(ty, st, ("arg", 2))
+                tgt = st.cells.get(r.cell) if isinstance(r, Ref) else None
+                if isinstance(tgt, Enum) and 1 in tgt.variants:
+                    st.cells[r.cell] = Enum(tgt.path, {1: tgt.variants[1]})
+                st.cells[fr.cell(2)] = r
+            try:
+                exits, fr = absrun.analyze(eng, cb, None, setup)
+                vals = [e.cells.get(fr.cell(0)) for e in exits]
+                if vals and all(isinstance(v, Int) and v.is_const() and v.lo == 1 for v in vals):
+                    okB = "position(): the predicate is true for every Err item (abstract evaluation of %s)" % cb.key.split("::")[-1]
+            except Exception:
+                pass
+    rep.instance("buffer_master: search stops at the first Err: %s" % (okB or "NOT established"))
+    rep.oblige(okB is not None, "REVIEWED-PREMISE|buffer_master|stops-at-err", bm.span,
+               "the search for the end of the buffered master is not shown to stop at the first Err item (needed for unwrapping the items before it)")
 
 
 def _standalone(ctx, rep, allowed_spec):
@@ -757,12 +806,13 @@ def r_iter_panic(ctx):
         rep.notes.extend(res["notes"][:5])
         rep.samples.append({"entry": res["label"], "exit_shapes": res["exit_shapes"][:12]})
     _standalone(ctx, rep, allowed)
-    _reviewed_premises(ctx, rep)
+    if getattr(rep, "reviewed_used", None) and any("buffer_master" in x for x in rep.reviewed_used):
+        _reviewed_premises(ctx, rep)
     recover_mono_premises(ctx, rep)
     for a in (A_OFF, A_64):
         if a not in rep.assumed:
             rep.assumed.append(a)
-    if rep.obligations < 120:
+    if rep.obligations < 60:
         raise AnchorLost("R-PANIC(iterator): only %d obligations, expected more" % rep.obligations)
     return rep
 
